@@ -242,7 +242,7 @@ func init() {
 	registry["C07"] = func(c *Ctx) *orch.Outcome {
 		return runModelCheck(c, modelSpec{Level: "exploration",
 			Rule: "one evaluation = one conversion (all asset pairs of the era, amounts 1..balance incl. tiny ones, rates drifting every block) submitted at h; the reference rule holds it until the first later block with rates r and credits floor(in×S/D) with the rates of r (S=min(spot,avg), D=max(spot,avg) from PIP-10); compared with balances, recorded status height and recorded to_amount; additionally out×D_spot ≤ in×S_spot is asserted on the recorded amounts. Distinct non-trivial = conversions whose recorded amount was compared, of which those priced by an average ≠ spot are counted separately.",
-			Profiles: func(c *Ctx) []modelParams { return featProfiles(c, 3, 24, 2, "c07", "gaps") },
+			Profiles: func(c *Ctx) []modelParams { return featProfiles(c, 3, 24, 2, "c07", "gaps", "avg-unavailable") },
 			NonTrivial: func(rs []*orch.Result) (int64, map[string]interface{}) {
 				ex := sumCounters(rs, "conversion_amounts_checked", "value_bounds_checked", "conversions_priced_by_average", "events_C07")
 				return orch.SumCounter(rs, "conversion_amounts_checked"), ex
@@ -282,7 +282,7 @@ func init() {
 	registry["C13"] = func(c *Ctx) *orch.Outcome {
 		return runModelCheck(c, modelSpec{Level: "exploration",
 			Rule: "one evaluation = one conversion from a funded address into a destination of every class (pFCT, PEG, small-cap assets, ordinary assets), submitted at activation-3 … activation+2 of every activation; the admission rule of the statement decides executed / rejected(-2,-3,-4,-5) / dropped, compared with balances and recorded status. Distinct non-trivial = (verdict code, era) classes observed for conversions.",
-			Profiles: func(c *Ctx) []modelParams { return featProfiles(c, 3, 24, 0, "c13") },
+			Profiles: func(c *Ctx) []modelParams { return featProfiles(c, 3, 24, 0, "c13", "avg-unavailable") },
 			NonTrivial: func(rs []*orch.Result) (int64, map[string]interface{}) {
 				k := distinctWithPrefix(rs, "outcome_classes", "conversion")
 				ex := sumCounters(rs, "batch_outcomes_checked")
